@@ -756,3 +756,173 @@ Definition same_frame_hash (a b : frame) : option bool :=
   | Some x, Some y => Some (json_eqb x y)
   | _, _ => None
   end.
+
+(* ------------------------------------------------------------------------------------------ *)
+(* Events received in a Frame: Hashgraph.InsertFrameEvent (as of fix 5bf08c3 in /repo).
+
+   Hashgraph.Reset inserts the frame events in consensus order (SortedFrameEvents: Lamport
+   timestamp, ties by signature).  For each one InsertFrameEvent
+     - sets round and lamportTimestamp from the FrameEvent,
+     - assigns topologicalIndex from the running counter (then increments it),
+     - setFrameEventWireInfo: creatorID from the repertoire (nothing is set when the creator is
+       unknown - Store.SetEvent then fails with "Unknown Participant" and Reset stops);
+       selfParentIndex = Index - 1 when there is a self-parent (-1 otherwise), WITHOUT a store
+       lookup; otherParentCreatorID / otherParentIndex from Store.GetEvent(other-parent), and
+       (0, -1) - "no other-parent" - when it is not in the store; all three stay (-1, 0, -1)
+       when Parents does not have exactly two entries,
+     - Store.SetEvent: the event is then found by hash and at (creator, index).
+   The event's hash is DATA (supplied with the event).  lastAncestors / firstDescendants
+   (initEventCoordinates) are not modelled here. *)
+
+Definition frame_other_parent (st : wstore) (op : gostr) : Z * Z :=
+  if zlist_eqb op [] then (0, -1)
+  else match ev_find op (ws_ev st) with
+       | Some (k, i) => match id_of_key k (ws_rep st) with
+                        | Some oid => (oid, i)
+                        | None => (0, -1)
+                        end
+       | None => (0, -1)
+       end.
+
+(* could the other-parent be described in wire form ? (false: the counted residual) *)
+Definition frame_other_parent_named (st : wstore) (op : gostr) : bool :=
+  if zlist_eqb op [] then true
+  else match ev_find op (ws_ev st) with
+       | Some (k, _) => match id_of_key k (ws_rep st) with Some _ => true | None => false end
+       | None => false
+       end.
+
+Definition set_private (e : event) (b : ebody) (topo : Z) (r l : option Z) : event :=
+  {| e_body := b; e_sig := e_sig e; e_topo := topo; e_round := r; e_lamport := l; e_rr := e_rr e;
+     e_last := e_last e; e_first := e_first e; e_hexc := e_hexc e |}.
+
+Definition frame_event_wire_info (st : wstore) (cid : Z) (e : event) : ebody :=
+  let b := e_body e in
+  match b_parents b with
+  | Some [sp; op] =>
+    let spi := if zlist_eqb sp [] then -1 else b_index b - 1 in
+    let o := frame_other_parent st op in
+    with_wire b cid (fst o) spi (snd o)
+  | _ => with_wire b cid 0 (-1) (-1)
+  end.
+
+Definition store_add (st : wstore) (h : gostr) (cid : Z) (e : event) : wstore :=
+  {| ws_rep := ws_rep st;
+     ws_pe := ((cid, b_index (e_body e)), h) :: ws_pe st;
+     ws_ev := (h, (key_bytes (b_creator (e_body e)), b_index (e_body e))) :: ws_ev st |}.
+
+(* one InsertFrameEvent: None = "Unknown Participant" *)
+Definition insert_frame_event (st : wstore) (n : Z) (h : gostr) (fe : fevent) (e : event)
+  : option (wstore * Z * event) :=
+  match id_of_key (key_bytes (b_creator (e_body e))) (ws_rep st) with
+  | None => None
+  | Some cid =>
+    let e1 := set_private e (frame_event_wire_info st cid e) n (Some (fe_round fe)) (Some (fe_lamport fe)) in
+    Some (store_add st h cid e1, n + 1, e1)
+  end.
+
+(* the frame events in insertion order: (hash, (frame event, its core)); the result lists every
+   inserted event with the flag "its other-parent could be named" (false: the residual) *)
+Definition other_parent_of (e : event) : gostr :=
+  match b_parents (e_body e) with Some [_; op] => op | _ => [] end.
+Fixpoint insert_frame_events (st : wstore) (n : Z) (l : list (gostr * (fevent * event)))
+  : option (wstore * Z * list (event * bool)) :=
+  match l with
+  | [] => Some (st, n, [])
+  | (h, (fe, e)) :: r =>
+    match insert_frame_event st n h fe e with
+    | None => None
+    | Some (st1, n1, e1) =>
+      match insert_frame_events st1 n1 r with
+      | None => None
+      | Some (st2, n2, out) => Some (st2, n2, (e1, frame_other_parent_named st (other_parent_of e)) :: out)
+      end
+    end
+  end.
+
+(* InsertFrameEvent BEFORE fix 5bf08c3 (kept for the regression witness): no private field of
+   the body is touched and the topological counter is not used *)
+Definition insert_frame_event_prefix (st : wstore) (n : Z) (h : gostr) (fe : fevent) (e : event)
+  : option (wstore * Z * event) :=
+  match id_of_key (key_bytes (b_creator (e_body e))) (ws_rep st) with
+  | None => None
+  | Some cid =>
+    let e1 := set_private e (e_body e) (e_topo e) (Some (fe_round fe)) (Some (fe_lamport fe)) in
+    Some (store_add st h cid e1, n, e1)
+  end.
+
+(* ------------------------------------------------------------------------------------------ *)
+(* Text validation (the guard against the codec's non-termination; /repo bc8842f):
+     common.EncodableString(s) = utf8.ValidString(s) && !strings.ContainsRune(s, U+FFFD)
+     keys.DecodeSignature: exactly two "|"-separated base-36 integers (big.Int.SetString(v, 36):
+       optional sign, at least one digit, digits 0-9 a-z A-Z)
+     InternalTransaction.Verify: the three strings of the peer are encodable, the signature decodes
+     Event.Verify: every internal transaction verifies, every block signature decodes and is
+       encodable, the event signature decodes
+     Frame.ValidateText (core.checkFastForward, before frame.Hash()): every string of the frame is
+       encodable (peers, root keys, and per event: signature, parents, block signature strings,
+       internal transaction signature and peer)
+   The cryptographic part of Verify is not modelled (data of the harness). *)
+
+Definition encodable (s : gostr) : bool := valid_str s && negb (str_has_fffd s).
+
+Definition b36_digit (c : Z) : bool :=
+  ((48 <=? c) && (c <=? 57)) || ((65 <=? c) && (c <=? 90)) || ((97 <=? c) && (c <=? 122)).
+Definition nonempty_digits (s : gostr) : bool :=
+  match s with [] => false | _ => forallb b36_digit s end.
+Definition b36_int (s : gostr) : bool :=
+  match s with
+  | [] => false
+  | c :: r => if (c =? 43) || (c =? 45) then nonempty_digits r else nonempty_digits s
+  end.
+(* strings.Split(s, "|") *)
+Fixpoint split_bar (s : gostr) : list gostr :=
+  match s with
+  | [] => [[]]
+  | c :: r => if c =? 124 then [] :: split_bar r
+              else match split_bar r with
+                   | x :: t => (c :: x) :: t
+                   | [] => [[c]]
+                   end
+  end.
+Definition sig_decodes (s : gostr) : bool :=
+  match split_bar s with
+  | [a; b] => b36_int a && b36_int b
+  | _ => false
+  end.
+
+Definition opt_forall {A} (f : A -> bool) (o : option A) : bool :=
+  match o with None => true | Some a => f a end.
+Definition list_forall {A} (f : A -> bool) (l : option (list A)) : bool :=
+  match l with None => true | Some x => forallb f x end.
+
+Definition peer_text_ok (p : peer) : bool :=
+  encodable (p_pub p) && encodable (p_addr p) && encodable (p_moniker p).
+
+(* the text part of InternalTransaction.Verify and of Event.Verify *)
+Definition itx_text_ok (t : itx) : bool := peer_text_ok (it_peer t) && sig_decodes (it_sig t).
+Definition event_text_ok (e : event) : bool :=
+  list_forall itx_text_ok (b_itxs (e_body e)) &&
+  list_forall (fun b => sig_decodes (bs_sig b) && encodable (bs_sig b)) (b_bsigs (e_body e)) &&
+  sig_decodes (e_sig e).
+(* the parents of an admitted event are "" or hashes of stored events (checkSelfParent /
+   checkOtherParent); stored hashes are "0X" + upper-case hex *)
+Definition parents_text_ok (e : event) : bool := list_forall encodable (b_parents (e_body e)).
+
+(* Frame.ValidateText *)
+Definition itx_frame_text_ok (t : itx) : bool := encodable (it_sig t) && peer_text_ok (it_peer t).
+Definition event_frame_text_ok (e : event) : bool :=
+  encodable (e_sig e) && list_forall encodable (b_parents (e_body e)) &&
+  list_forall (fun b => encodable (bs_sig b)) (b_bsigs (e_body e)) &&
+  list_forall itx_frame_text_ok (b_itxs (e_body e)).
+Definition fevent_text_ok (fe : fevent) : bool := opt_forall event_frame_text_ok (fe_core fe).
+Definition fevents_text_ok (l : option (list (option fevent))) : bool :=
+  list_forall (opt_forall fevent_text_ok) l.
+Definition peers_text_ok (l : option (list (option peer))) : bool :=
+  list_forall (opt_forall peer_text_ok) l.
+Definition frame_text_ok (f : frame) : bool :=
+  peers_text_ok (f_peers f) &&
+  list_forall (fun kv : Z * option (list (option peer)) => peers_text_ok (snd kv)) (f_psets f) &&
+  list_forall (fun kv : gostr * option root =>
+                 encodable (fst kv) && opt_forall (fun r => fevents_text_ok (r_events r)) (snd kv)) (f_roots f) &&
+  fevents_text_ok (f_events f).
